@@ -97,15 +97,19 @@ class Concretiser:
     def dt(self, tick):
         return (self.base + tick * self.scale * MS).astimezone(self.tz())
 
+    # a sub-millisecond part carried by EVERY duration of a run (0 unless a harness sets it): the tick arithmetic of the
+    # models is unaffected, durations with microseconds go through every write path
+    eps = timedelta(0)
+
     def td(self, ticks):
-        return ticks * self.scale * MS
+        return ticks * self.scale * MS + self.eps
 
     def tick(self, dt):
         q, r = divmod(dt - self.base, MS * self.scale)
         return q if r == timedelta(0) and abs(q) < 2**30 else -99999
 
     def dur(self, td):
-        q, r = divmod(td, MS * self.scale)
+        q, r = divmod(td - self.eps, MS * self.scale)
         return q if r == timedelta(0) and abs(q) < 2**30 else -99999
 
 
@@ -117,6 +121,7 @@ class Executor:
         self.Event = Event
         self.ds, self.kind, self.rnd = ds, kind, rnd
         self.cz = Concretiser(rnd)
+        self.cz.eps = timedelta(microseconds=rnd.choice([0, 0, 0, 251, 489, 1, 999, 47]))
         self.B = list(buckets)
         suffix = rnd.choice(["", "-üñ", "_x y"])
         self.bname = {b: "%s-%s%s" % (b, uniq, suffix) for b in self.B}
@@ -492,7 +497,11 @@ class Executor:
             rec["pre1"] = first[0].id
             rec["ev"] = {"ts": e["ts"], "dur": e["dur"], "d": e["d"]}
             try:
-                ds[rb].replace_last(self.mkev(e))
+                # the event object handed over may carry an id of its own (a read-back of an OLDER event, edited): replace-last
+                # rewrites the newest event whatever id the object carries
+                older = sorted(i for i in (self.live_ids(b) or []) if i != first[0].id)
+                carried = self.rnd.choice([None, None, None, first[0].id] + older[:2])
+                ds[rb].replace_last(self.mkev(e, id=carried))
             except Exception as ex:
                 out = type(ex).__name__
         elif o == "delete":
